@@ -439,6 +439,16 @@ def check_env(c, sh, env, what):
                     and not rawpath.endswith((b"/.", b"/..")) and b"//" not in rawpath:
                 if sn + pi != rawpath:
                     return "%s: SCRIPT_NAME ++ PATH_INFO is not the request path || %r ++ %r for %r" % (what, sn[:60], pi[:60], rawpath[:60])
+                # gw_check_extension(): a "/prefix" extension (check-local off) names the script:
+                # SCRIPT_NAME runs up to the first '/' at or after the end of the prefix
+                if c.op in ("env", "fcgi", "scgi", "uwsgi") and c.ext.startswith(b"/") \
+                        and rawpath.startswith(c.ext) and not (c.fl & F_CHECKLOCAL) \
+                        and not (len(c.ext) == 1 and c.fl & F_FIXROOT):
+                    cut = rawpath.find(b"/", len(c.ext)) if len(rawpath) > len(c.ext) else -1
+                    want_sn = rawpath if cut < 0 else rawpath[:cut]
+                    if sn != want_sn:
+                        return "%s: SCRIPT_NAME is not the script named by the extension prefix || %r for %r, prefix %r" % (
+                            what, sn[:60], rawpath[:60], c.ext)
             elif b"?" in sn + pi and b"%3f" not in rawpath.lower():
                 return "%s: '?' in SCRIPT_NAME/PATH_INFO || %r" % (what, (sn + pi)[:80])
             if pi and not pi.startswith(b"/"):
